@@ -259,7 +259,7 @@ let params_of (s : string) : string = (* "x<hex>#params|f" *)
   | None -> ""
 
 (* relational groups: (rel, group id) -> role a observation *)
-type qobs = { q : string; df : string; tag : string; o : string array; line : string }
+type qobs = { q : string; df : string; tag : string; o : string array; line : string; mtree : expr option (* the model's parse of q: the meaning of the query text *) }
 let pending : (string, qobs) Hashtbl.t = Hashtbl.create 1024
 
 let tree_of_parse (p : string) : string option = (* "tree|0" -> tree *)
